@@ -1,6 +1,6 @@
 (* C09 - absent properties take their schema default; present values win.
    Statements only; every proof is `exact <lemma>`; Print Assumptions under each. *)
-From GJS Require Import Base Regex Schema GoType Gen Exec Valid ExecP GenP CoreP.
+From GJS Require Import Base Regex Schema GoType Gen Exec Valid ExecP GenP CoreP DefaultsP DefaultsChecksP.
 
 (* the default validator assigns the default exactly when the raw key is missing or null ... *)
 Theorem C09_absent_or_null : forall dvf raw st fname jname ty dv d st',
@@ -45,3 +45,101 @@ Proof.
          (JObj [([107]%N, JStr [118]%N)]).
   cbn. discriminate.
 Qed.
+
+(* the whole method: a struct method whose validators are default assignments (over distinct, existing fields, with literals that fit) returns the
+   typed decode of the document with, for every defaulted field whose key is missing or null, the default in its place; every other field - and
+   every defaulted field whose key is present - keeps the decoded value.  For every document, field list and list of defaults. *)
+Theorem C09_method_defaults : forall decf zf dvf fs under vs kv flds,
+  find f_addl fs = None -> plain_fields decf zf fs (JObj kv) = Ok (GSt flds) ->
+  Forall (dflt_wf dvf flds) vs -> NoDup (map dname vs) ->
+  exists flds', run_method decf zf dvf (Some fs) under vs (JObj kv) = Ok (GSt flds') /\
+                forall f, f <> [] -> lookup f flds' = expected dvf (Some (Some kv)) flds vs f.
+Proof. exact defaults_method. Qed.
+Print Assumptions C09_method_defaults.
+
+Theorem C09_method_defaults_inhabited :
+  let fs := [mkField [65]%N [97]%N false TString (Some (JStr [120]%N)) false; mkField [66]%N [98]%N false TString (Some (JStr [121]%N)) false] in
+  let vs := [VDefault [65]%N [97]%N TString (JStr [120]%N); VDefault [66]%N [98]%N TString (JStr [121]%N)] in
+  let kv := [([97]%N, JStr [122]%N); ([98]%N, JNull)] in
+  run_method (dec (fun _ _ => true) [] 3) zero (default_val [] 3) (Some fs) TString vs (JObj kv) = Ok (GSt [([65]%N, GS [122]%N); ([66]%N, GS [121]%N)]).
+Proof. exact defaults_inhabited. Qed.
+Print Assumptions C09_method_defaults_inhabited.
+
+(* generator and method composed: for every object all of whose properties are plain strings with a string default, the type `gen` produces is a struct
+   whose method returns the typed decode with the default in place of every missing or null key - for every document *)
+Theorem C09_defaulted_object : forall idf cf defs f self sub s scope t b,
+  plain_object s -> s_addl s = None -> (forall k p, In (k, p) (s_props s) -> dstr_leaf p) ->
+  NoDup (map fst (prop_names idf (s_props s))) -> (forall fname kp, In (fname, kp) (prop_names idf (s_props s)) -> fname <> []) ->
+  Gen.gen idf cf defs (S (S f)) MType self sub s scope = Done (t, b) ->
+  exists fs vs, t = TStruct [] fs (Some vs) /\
+    forall decf zf dvf under kv flds,
+      (forall s0, dvf TString (JStr s0) = Some (GS s0)) ->
+      plain_fields decf zf fs (JObj kv) = Ok (GSt flds) ->
+      exists flds', run_method decf zf dvf (Some fs) under vs (JObj kv) = Ok (GSt flds') /\
+                    forall fn, fn <> [] -> lookup fn flds' = expected dvf (Some (Some kv)) flds vs fn.
+Proof. exact defaulted_object_method. Qed.
+Print Assumptions C09_defaulted_object.
+
+Theorem C09_defaulted_object_inhabited :
+  plain_object ex_dobj /\ s_addl ex_dobj = None /\ (forall k p, In (k, p) (s_props ex_dobj) -> dstr_leaf p) /\
+  NoDup (map fst (prop_names (fun s => s) (s_props ex_dobj))) /\ (forall fname kp, In (fname, kp) (prop_names (fun s => s) (s_props ex_dobj)) -> fname <> []) /\
+  exists t b, Gen.gen (fun s => s) (mkCfg false false) [] 3 MType None false ex_dobj [82]%N = Done (t, b).
+Proof. exact defaulted_object_inhabited. Qed.
+Print Assumptions C09_defaulted_object_inhabited.
+
+(* defaults AND checks: a struct method whose validator list puts the default of a field before the checks of that field (the order of emission, which the
+   plan tie compares with the emitted text position by position) accepts a document iff every required key is present and every check passes on the
+   DEFAULTED decode, and then returns exactly the defaulted decode.  Every field list, validator list and document. *)
+Theorem C09_method_defaults_and_checks : forall decf zf dvf fs under vs kv flds,
+  find f_addl fs = None -> plain_fields decf zf fs (JObj kv) = Ok (GSt flds) ->
+  Forall (wf_v dvf (map fst flds)) vs -> ordered vs -> existsb v_before vs || existsb v_raw_after vs = true ->
+  let fin := final dvf (Some (Some kv)) vs flds in
+  is_ok (run_method decf zf dvf (Some fs) under vs (JObj kv)) = forallb (present kv) vs && forallb (passes dvf (Some (Some kv)) fin) vs /\
+  (is_ok (run_method decf zf dvf (Some fs) under vs (JObj kv)) = true -> run_method decf zf dvf (Some fs) under vs (JObj kv) = Ok (GSt fin)).
+Proof. exact method_defaults_checks. Qed.
+Print Assumptions C09_method_defaults_and_checks.
+
+Theorem C09_defaults_and_checks_inhabited :
+  let fs := [mkField [65]%N [97]%N false TString None false; mkField [66]%N [98]%N true TString (Some (JStr [121]%N)) false] in
+  let vs := [VRequired [97]%N; VString [65]%N [97]%N false 2 0 None; VDefault [66]%N [98]%N TString (JStr [121]%N); VString [66]%N [98]%N false 0 3 None] in
+  let run kv := run_method (dec (fun _ _ => true) [] 3) zero (default_val [] 3) (Some fs) TString vs (JObj kv) in
+  ordered vs /\
+  run [([97]%N, JStr [122; 122]%N)] = Ok (GSt [([65]%N, GS [122; 122]%N); ([66]%N, GS [121]%N)]) /\
+  is_ok (run [([97]%N, JStr [122]%N)]) = false /\ is_ok (run []) = false /\
+  is_ok (run [([97]%N, JStr [122; 122]%N); ([98]%N, JStr [108; 111; 110; 103; 33]%N)]) = false.
+Proof. exact defaults_checks_inhabited. Qed.
+Print Assumptions C09_defaults_and_checks_inhabited.
+
+(* ... and the generator emits that order for EVERY object schema it handles (properties of any type, with or without defaults, required or not):
+   required checks first, then per field its default (if any) followed by its checks, never a default of a field after a check of it *)
+Theorem C09_generated_order : forall idf cf defs f self sub s scope fs vs b,
+  plain_object s -> s_addl s = None -> NoDup (map fst (prop_names idf (s_props s))) ->
+  Gen.gen idf cf defs (S f) MType self sub s scope = Done (TStruct [] fs (Some vs), b) -> ordered vs.
+Proof. exact object_method_ordered. Qed.
+Print Assumptions C09_generated_order.
+
+(* the capstone: for EVERY object schema the model generates (no additionalProperties; properties of any type, with or without defaults), with distinct
+   non-empty field names and default literals that fit, the generated struct method accepts a document whose values decode iff every required key is
+   present and every emitted check passes on the defaulted decode, and returns exactly the defaulted decode *)
+Theorem C09_generated_object_defaults_checks : forall idf cf defs decf zf dvf f self sub s scope fs vs b under kv flds,
+  plain_object s -> s_addl s = None -> NoDup (map fst (prop_names idf (s_props s))) ->
+  (forall fname kp, In (fname, kp) (prop_names idf (s_props s)) -> fname <> []) ->
+  (forall fn j ty dv, In (VDefault fn j ty dv) vs -> exists d, dvf ty dv = Some d) ->
+  Gen.gen idf cf defs (S f) MType self sub s scope = Done (TStruct [] fs (Some vs), b) ->
+  existsb v_before vs || existsb v_raw_after vs = true ->
+  plain_fields decf zf fs (JObj kv) = Ok (GSt flds) ->
+  let fin := final dvf (Some (Some kv)) vs flds in
+  is_ok (run_method decf zf dvf (Some fs) under vs (JObj kv)) = forallb (present kv) vs && forallb (passes dvf (Some (Some kv)) fin) vs /\
+  (is_ok (run_method decf zf dvf (Some fs) under vs (JObj kv)) = true -> run_method decf zf dvf (Some fs) under vs (JObj kv) = Ok (GSt fin)).
+Proof. exact generated_object_defaults_checks. Qed.
+Print Assumptions C09_generated_object_defaults_checks.
+
+Theorem C09_generated_object_inhabited :
+  plain_object ex_dc_obj /\ s_addl ex_dc_obj = None /\ NoDup (map fst (prop_names (fun s => s) (s_props ex_dc_obj))) /\
+  (forall fname kp, In (fname, kp) (prop_names (fun s => s) (s_props ex_dc_obj)) -> fname <> []) /\
+  exists fs vs b, Gen.gen (fun s => s) (mkCfg false false) [] 3 MType None false ex_dc_obj [82]%N = Done (TStruct [] fs (Some vs), b) /\
+    (forall fn j ty dv, In (VDefault fn j ty dv) vs -> exists d, default_val [] 3 ty dv = Some d) /\
+    existsb v_before vs || existsb v_raw_after vs = true /\
+    vs = [VRequired [97]%N; VString [97]%N [97]%N false 2 0 None; VDefault [98]%N [98]%N TString (JStr [121]%N); VString [98]%N [98]%N false 0 3 None].
+Proof. exact generated_dc_inhabited. Qed.
+Print Assumptions C09_generated_object_inhabited.
